@@ -97,6 +97,18 @@ pub fn put_var(out: &mut Vec<u8>, v: u64) {
 }
 
 /// encode with a forced length (1,2,4,8) — non-minimal encodings are legal on the wire
+pub fn varint_len(v: u64) -> usize {
+    if v < 1 << 6 {
+        1
+    } else if v < 1 << 14 {
+        2
+    } else if v < 1 << 30 {
+        4
+    } else {
+        8
+    }
+}
+
 pub fn put_var_len(out: &mut Vec<u8>, v: u64, len: usize) {
     match len {
         1 => out.push((v & 0x3f) as u8),
